@@ -5,6 +5,8 @@ mod world;
 mod rules;
 mod ir;
 mod c03;
+mod typegen;
+mod c12;
 
 fn main() {
     let args: Vec<String> = std::env::args().collect();
@@ -45,6 +47,7 @@ fn main() {
         "C15" => c15::run(&outdir, seed, thorough),
         "C13" | "C02" => rules::run(&prop, &outdir, seed, thorough),
         "C03" => c03::run(&outdir, seed, thorough),
+        "C12" => c12::run(&outdir, seed, thorough),
         "GEN-RULES" => { if let Err(e) = rules::generate(&outdir) { eprintln!("{}", e); std::process::exit(1); } return; }
         _ => { eprintln!("unknown property {}", prop); std::process::exit(2); }
     };
